@@ -51,6 +51,8 @@ class CostSpec(cost_spec.CostSpec):
 
     @raw_number_per.setter
     def __raw_number_per(self, value: Optional[NumberExpr]) -> None:
+        if value is not None and value is self.raw_number_per:
+            return  # e.g. `spec.raw_number_per += 1` stores the expression it has just updated in place
         _check_free(value)
         if compound_amount := self.raw_compound_amount_comp:  # CompoundAmount
             compound_amount.raw_number_per = value
@@ -98,6 +100,8 @@ class CostSpec(cost_spec.CostSpec):
 
     @raw_number_total.setter
     def __raw_number_total(self, value: Optional[NumberExpr]) -> None:
+        if value is not None and value is self.raw_number_total:
+            return
         _check_free(value)
         if compound_amount := self.raw_compound_amount_comp:  # CompoundAmount
             compound_amount.raw_number_total = value
